@@ -184,6 +184,10 @@ class SelectResults(object):
                 return list(iter(self))[value]
             else:
                 start = self.ops.get('start', 0) + value
+                if self.ops.get('end', None) is not None \
+                   and start >= self.ops['end']:
+                    # past the end of the previous slice
+                    raise IndexError("list index out of range")
                 return list(self.clone(start=start, end=start + 1))[0]
 
     def __iter__(self):
